@@ -1870,8 +1870,11 @@ void svt_av1_loop_restoration_save_boundary_lines(const Yv12BufferConfig *frame,
 EbErrorType svt_av1_alloc_restoration_buffers(Av1Common *cm) {
     EbErrorType   return_error = EB_ErrorNone;
     const int32_t num_planes   = 3; // av1_num_planes(cm);
-    for (int32_t p = 0; p < num_planes; ++p)
+    for (int32_t p = 0; p < num_planes; ++p) {
         return_error = svt_av1_alloc_restoration_struct(cm, &cm->rst_info[p], p > 0);
+        if (return_error != EB_ErrorNone)
+            return return_error;
+    }
 
     // For striped loop restoration, we divide each row of tiles into "stripes",
     // of height 64 luma pixels but with an offset by RESTORATION_UNIT_OFFSET
